@@ -12,7 +12,13 @@ NOTE = ("Trusted: go/types+go/ssa lowering, the SMT solvers, govc's SSA->SMT rul
         "not the whole-compiler statement; the residual is listed under assumptions in the evidence.")
 
 claimed = {
-  "C18": ("4 C18", "bit writer (WriteBits/Align32/WriteVBR step-form content/zig-zag/char6/Enter-ExitBlock back-patch) proved for all inputs"),
+  "C06": ("4 C06", "f32<->f16 conversion kernels (float32ToHalf, halfToFloat32, roundToF16, DXIL float32ToF16Bits) proved bit-exact against SMT FloatingPoint round-to-nearest-even for all 2^32 inputs"),
+  "C07": ("4 C07", "ir.TypeSize / typeInnerSize / vectorAlignment proved equal to the WGSL SizeOf/AlignOf rules for every type shape"),
+  "C09": ("4 C09", "compaction's per-expression mark and remap functions proved to visit/remap every handle field of every expression kind (obligations derived from the Go type declarations)"),
+  "C12": ("4 C12", "frame obligations: the override pass's expression remapper writes none of the caller's shared *ExpressionHandle cells"),
+  "C13": ("4 C13", "type-derived traverse obligations for the mark/visit/remap functions of compaction, override resolution, inlining and the DXIL dead-code pass: every handle of every kind is handled, everything else unchanged"),
+  "C14": ("4 C14", "override resolution's expression remapper is the same function of its input as compaction's and does not alter the caller's module"),
+  "C18": ("4 C18", "bit writer (WriteBits/Align32/WriteVBR step-form content/zig-zag/char6/Enter-ExitBlock back-patch) and DXBC container serialisation (size, count, offset table, part headers, bounds) proved for all inputs"),
 }
 
 not_applicable = {
